@@ -430,7 +430,15 @@ func vActiveTimers() int { return 0 }
 // harnesses is built with -race, so a genuine unguarded access ends the
 // process with the detector's report.
 
-func vMonitorBegin(cs *clientState) {}
+func vMonitorBegin(cs *clientState) { atomic.StoreInt64(&vLockAcq, 0) }
+
+// vLockAcquired is called (replay overlay) right after the package under
+// test has taken the database mutex.
+var vLockAcq int64
+
+func vLockAcquired() { atomic.AddInt64(&vLockAcq, 1) }
+
+func vLockAcquisitions() int { return int(atomic.LoadInt64(&vLockAcq)) }
 
 func vMonitorEnd() (unguarded, sections int, detail, shared string, guarded int) { return }
 
